@@ -936,6 +936,27 @@ func (f *FnVC) bodyEnv(st *State) *SEnv {
 	for k, v := range f.params {
 		env.names[k] = v
 	}
+	// captured variables and address-taken locals: the source name denotes the current content of the cell
+	for _, fv := range f.Fn.FreeVars {
+		if pv, ok := f.vals[vkey{fv, 0}]; ok {
+			if pt, ok := unalias(fv.Type()).Underlying().(*types.Pointer); ok {
+				env.names[fv.Name()] = f.loadAt(st, pv, pt.Elem())
+			}
+		}
+	}
+	for name, av := range f.addrNames {
+		if _, isParam := f.params[name]; isParam {
+			continue
+		}
+		for it := f.curNode.it; it >= 0; it-- {
+			if pv, ok := f.vals[vkey{av, it}]; ok {
+				if pt, ok := unalias(av.Type()).Underlying().(*types.Pointer); ok {
+					env.names[name] = f.loadAt(st, pv, pt.Elem())
+				}
+				break
+			}
+		}
+	}
 	for k, v := range f.localNames {
 		env.names[k] = v
 	}
